@@ -22,7 +22,7 @@ def run(pid, tier, seed, chk):
     t0 = time.time()
     os.makedirs(chk.BUILD, exist_ok=True); os.makedirs(chk.EVID, exist_ok=True)
     rundir = os.path.join(chk.BUILD, 'run-%d' % os.getpid()); os.makedirs(rundir, exist_ok=True)
-    mult = 1 if tier == 'quick' else 8
+    mult = 1 if tier == 'quick' else 32
     broken = []; viols = []
     try:
         with chk.Lock('lean'):
